@@ -14,7 +14,7 @@ use crate::gen::*;
 use crate::refmodel::framing::{decide, Framing};
 use crate::refmodel::reqvalid::{self, ReqFacts};
 
-pub const RULE: &str = "scenarios = requests (9 methods x {1.0,1.1} x Expect {no,yes} x send-body-despite-method {no,yes} x framing header {none, content-length: 3, content-length: 0, transfer-encoding: chunked}; rejected ones are kept and must stay in SendRequest) x server behaviours (interim 100 in time / late via give-up, silent server, refusal bare 403 / 403 with fields, final status {200,204,205,300,304,404,302 with Location,302 without,307 with Location,399 with Location} x version {1.0,1.1} x body {no framing header, Content-Length: 0, Content-Length: 3, chunked}); coarse I/O (whole message or cuts after the status line / after the head / mid-body; thorough: 1-byte arrivals too); in every state: all permitted calls incl. proceed() on a clone whether or not ready, head write after completion, finishing write after the end, reads after the end, as_new_flow with both policies (twice) followed by a complete second exchange on the new flow; successor state compared with the documented graph at every edge; every state must reach Cleanup. distinct = distinct (scenario, final observation)";
+pub const RULE: &str = "scenarios = requests (9 methods x {1.0,1.1} x Expect {no,yes} x send-body-despite-method {no,yes} x framing header {none, content-length: 3, content-length: 0, transfer-encoding: chunked}; rejected ones are kept and must stay in SendRequest) x server behaviours (interim 100 in time / late via give-up, silent server, refusal bare 403 / 403 with fields, final status {200,204,205,300,304,404,302 with Location,302 without,307 with Location,399 with Location} x version {1.0,1.1} x body {no framing header, Content-Length: 0, Content-Length: 3, chunked}; 200/302/399 over HTTP/1.1 also with an empty-valued field ahead of all others); coarse I/O (whole message or cuts after the status line / after the head / mid-body; thorough: 1-byte arrivals too); in every state: all permitted calls incl. proceed() on a clone whether or not ready, head write after completion, finishing write after the end, reads after the end, as_new_flow with both policies (twice) followed by a complete second exchange on the new flow; successor state compared with the documented graph at every edge; every state must reach Cleanup. distinct = distinct (scenario, final observation)";
 
 const METHODS: [&str; 9] = ["GET", "HEAD", "POST", "PUT", "DELETE", "CONNECT", "OPTIONS", "TRACE", "PATCH"];
 
@@ -51,6 +51,9 @@ fn requests() -> Vec<(ReqSpec, bool)> {
 /// C09 owns: no panic, successor states per the documented graph, readiness = advancing, usability of every reached state.
 fn scope(k: &str) -> bool {
     k.starts_with("proceed:") || k.starts_with("readiness:") || k.starts_with("graph:") || k.starts_with("redirect:") || k == "no-path-to-completion" || k == "no-final-state" || k.starts_with("canonical:") || k.starts_with("queries:")
+        // a head write after completion that emits body bytes ends the body while still in SendRequest:
+        // the flow then arrives in SendBody with a finished body (defect F3 was reported here first)
+        || k == "head-write:emits-after-complete"
 }
 
 fn cut_points(srv: &[ServerMsg]) -> Vec<usize> {
@@ -119,7 +122,14 @@ pub fn build(tier: Tier) -> Vec<Arc<ExchCfg>> {
                         "cl3" => BodySpec::Length(b"abc".to_vec()),
                         _ => BodySpec::Chunked { chunks: vec![b"ab".to_vec(), b"c".to_vec()], ext: false, trailers: 1 },
                     };
-                    finals.push(final_msg(method, ver, st, &extra, &b));
+                    let fm = final_msg(method, ver, st, &extra, &b);
+                    if ver == "1.1" && matches!(status, 200 | 302 | 399) {
+                        // an empty-valued field ahead of every field that selects the edge
+                        let mut padded = fm.clone();
+                        padded.fields.insert(0, ("X-Pad".into(), Vec::new()));
+                        finals.push(padded);
+                    }
+                    finals.push(fm);
                 }
             }
         }
